@@ -347,6 +347,63 @@ def definer_binding_runs(chk):
                replay=None if bad is None else {"confirmed": True, "input": bad[0], "observed": repr(bad[1]), "expected": repr(want)})
 
 
+def required_prefixes(chk):
+    """Macro names and require aliases: macros required through a prefix - `(require m :as P)`, `(require pkg [sub :as P])` - are
+    stored under mangle(P + "." + name), so every spelling of the prefix and of the macro name with the same mangling calls the macro."""
+    import os
+    import shutil
+    import sys
+    import tempfile
+    root = tempfile.mkdtemp(prefix="hv_c34_", dir=os.environ.get("HV_SCRATCH") or None)
+    pkg = os.path.join(root, "hvpkg34")
+    os.makedirs(pkg)
+    open(os.path.join(pkg, "__init__.hy"), "w").write("")
+    open(os.path.join(pkg, "sub_mod.hy"), "w").write("(defmacro twice! [x] `(* 2 ~x))\n(defmacro plain [x] `(+ 1 ~x))\n")
+    sys.path.insert(0, root)
+    try:
+        forms = {
+            "submodule of a package with an alias": "(require hvpkg34 [sub-mod :as {a}])",
+            "submodule of a package without alias": "(require hvpkg34 [sub-mod])",
+            "module with an alias": "(require hvpkg34.sub-mod :as {a})",
+            "module without alias": "(require hvpkg34.sub-mod)",
+        }
+        aliases = {"submodule of a package without alias": ["sub-mod", "sub_mod"], "module without alias": ["hvpkg34.sub-mod", "hvpkg34.sub_mod"]}
+        for what, tmpl in forms.items():
+            bad = None
+            n = 0
+            for cls, sp in SPELLINGS.items():
+                m = mangle(sp[0])
+                opts = aliases.get(what) or [*sp, m]
+                for i, a in enumerate(opts):
+                    b = opts[(i + 1) % len(opts)]
+                    src = tmpl.format(a=a) + f" [({b}.twice! 3) ({a}.plain 4)]"
+                    mod = types.ModuleType("hv_c34r")
+                    sys.modules["hv_c34r"] = mod          # (require looks the target module up by name)
+                    try:
+                        got = hy.eval(hy.read_many(src), module=mod)
+                    except Exception as e:  # noqa: BLE001
+                        got = f"{type(e).__name__}: {e}"[:160]
+                    finally:
+                        sys.modules.pop("hv_c34r", None)
+                    keys = [k for k in getattr(mod, "_hy_macros", {}) if mangle(k) != k]
+                    n += 1
+                    chk.case(("require-prefix", what, cls, i))
+                    if (got != [6, 5] or keys) and bad is None:
+                        bad = (src, got, keys)
+                if what in aliases:
+                    break
+            chk.ob(f"require-prefix/{what}: the macros are stored under mangle(prefix.name) and every spelling calls them", bad is None and n > 0,
+                   "cpython-oracle", "exhaustive_finite", detail=f"{n} programs" if bad is None else
+                   f"{bad[0]} -> {bad[1]!r} (expected [6, 5]); macro-table keys that are not manglings: {bad[2]}",
+                   replay=None if bad is None else {"confirmed": True, "input": bad[0] + "   (hvpkg34/sub_mod.hy defines the macros twice! and plain)",
+                                                    "observed": repr(bad[1]), "expected": "[6, 5]"})
+    finally:
+        sys.path.remove(root)
+        for k in [k for k in sys.modules if k.startswith("hvpkg34")]:
+            del sys.modules[k]
+        shutil.rmtree(root, ignore_errors=True)
+
+
 def binding_identity(chk):
     import itertools
     T = templates()
@@ -504,6 +561,7 @@ def run(chk):
     local_macro_names_injective(chk)
     binding_identity(chk)
     definer_binding_runs(chk)
+    required_prefixes(chk)
     chk.fn("hy/compiler.py::compile_symbol, compile_expression, _compile_collect", "hy/core/result_macros.py::compile_attribute_access, "
            "compile_arguments_set, compile_function_def, compile_class_expression, compile_import, compile_global_or_nonlocal, "
            "compile_pattern, compile_try_expression, compile_let, compile_deftype, digest_type_params",
